@@ -132,3 +132,23 @@ def random_balanced(rng, n, ntypes=30):
                 opens += 1
             rem -= 1
     return "".join(s)
+
+
+def many_stems(rng, nhairpins, knot=True):
+    """nhairpins plain hairpins followed by a small pseudoknot: many regions, tiny conflict graph"""
+    p = []
+    for _ in range(nhairpins):
+        ln = rng.randint(1, 3)
+        loop = rng.randint(3, 5)
+        base = len(p)
+        n = 2 * ln + loop
+        blk = [0] * n
+        for q in range(ln):
+            blk[q] = base + n - q
+            blk[n - 1 - q] = base + q + 1
+        p += blk + [0] * rng.randint(0, 2)
+    if knot:
+        tail = layout(rng, rng.randint(2, 4), maxlen=3, maxgap=2)
+        off = len(p)
+        p += [x + off if x else 0 for x in tail]
+    return p
